@@ -39,7 +39,10 @@ def run(pid, tier, spec, replay_file=None, write=True):
                 open(cases_path, 'w').write('\n'.join(lines) + '\n')
         ncases = sum(1 for _ in open(cases_path))
         obs_path = os.path.join(tmp, 'obs.ndjson')
-        p = subprocess.run([harness, 'cases', '-kind', kind, '-in', cases_path, '-out', obs_path],
+        env = dict(os.environ)
+        if spec.get('needs_pike'):
+            env['PIKE_BIN'] = build_pike()
+        p = subprocess.run([harness, 'cases', '-kind', kind, '-in', cases_path, '-out', obs_path], env=env,
                            stdout=subprocess.PIPE, stderr=subprocess.STDOUT, text=True, timeout=spec.get('run_timeout', 900))
         if p.returncode != 0 or not os.path.exists(obs_path):
             raise Infra('case runner failed:\n' + p.stdout[-3000:])
